@@ -641,7 +641,8 @@ func (w *evmWorld) deliverMulti(parts []evmPart) {
 }
 
 // evmCreateThenOther: the last SUCCESSFUL contract creation account `id` sends in the cosmos tx is followed by another
-// message of it (F-19d: the creation resets the nonce the ante handler had advanced for the later messages).
+// message of it (the shape of F-19d, repaired in e39c03d: the creation reset the nonce the ante handler had advanced for
+// the later messages; a nonce shortfall of that shape keeps the finding's sig so that a re-introduction is recognised).
 func evmCreateThenOther(parts []evmPart, ers []evmtypes.MsgEthereumTxResponse, id int) bool {
 	lastCreate, last := -1, -1
 	for i, p := range parts {
